@@ -440,7 +440,7 @@ def writer_cases(rng, tier):
             out.append(("w", dict(src="cli", argv=list(argv), seed=rng.randint(1, 10 ** 6), export_header=eh, export_varnames=ev,
                                   u=rng.random() < .5, hdr_extra=[["note", rng.choice(odd)]] if rng.random() < .3 else [])))
     # random
-    for _ in range(60 if tier == "quick" else 600):
+    for _ in range(60 if tier == "quick" else 3000):
         n, cs = rand_formula(rng)
         k = rng.randint(0, min(n, 4))
         info = dict(src="hand", n=n, clauses=cs, labels=[rng.choice(odd) for _ in range(k)],
@@ -480,9 +480,9 @@ def cases(ctx):
             infos.append(("r", dict(text=[ord(c) for c in text], u=u, kind="corpus:" + kind)))
             infos.append(("lex", dict(text=[ord(c) for c in text], u=u, kind="corpus")))
     infos += writer_cases(common.sub_rng(seed, "C06", "w"), tier)
-    infos += reader_cases(common.sub_rng(seed, "C06", "r"), 2500 if tier == "quick" else 30000)
-    infos += lex_cases(common.sub_rng(seed, "C06", "lex"), 1500 if tier == "quick" else 15000)
-    infos += nonascii_cases(common.sub_rng(seed, "C06", "na"), 300 if tier == "quick" else 3000)
+    infos += reader_cases(common.sub_rng(seed, "C06", "r"), 2500 if tier == "quick" else 120000)
+    infos += lex_cases(common.sub_rng(seed, "C06", "lex"), 1500 if tier == "quick" else 40000)
+    infos += nonascii_cases(common.sub_rng(seed, "C06", "na"), 300 if tier == "quick" else 10000)
     for suite, info in infos:
         c = build(suite, info)
         if c is not None:
